@@ -107,6 +107,9 @@ func newNode(w *World, id int) *Node {
 	if id < 2 && scn.Adapter[id] == "lnd" {
 		n.Flavor = "lnd"
 	}
+	if id < 2 && scn.Adapter[id] == "cln" {
+		n.Flavor = "cln"
+	}
 	n.Real = n.Kind == "real"
 	if n.Flavor == "" {
 		n.Flavor = "cln"
